@@ -29,6 +29,14 @@ Theorem C20_kmeans_deterministic : forall vs k m it a b, kmeans vs k m it = a ->
 Proof. intros; congruence. Qed.
 Print Assumptions C20_kmeans_deterministic.
 
+(** "assigns every training vector to a valid centroid (its nearest one whenever the run converged)":
+    a converged run returns exactly the first-arg-min assignment with respect to the centroids it
+    returns (validity of every index is C20_kmeans_count_and_range) *)
+Theorem C20_converged_assignment_is_nearest : forall vs k m it cents mapping,
+  kmeans vs k m it = Some (cents, mapping, true) -> mapping = map (fun v => nearest m v cents) vs.
+Proof. exact kmeans_converged_is_nearest. Qed.
+Print Assumptions C20_converged_assignment_is_nearest.
+
 (** quantisers preserve length; float32 is exact; the int8 quantiser refuses to work untrained *)
 Theorem C20_q16_length : forall v, length (q16 v) = length v /\ length (dq16 (q16 v)) = length v.
 Proof. intro v. unfold q16, dq16. rewrite !map_length. auto. Qed.
